@@ -383,7 +383,7 @@ class Ctx:
                 ob.time = time.time() - t0
                 self.solver_time += ob.time
                 ob.status, ob.detail, ob.backend = status, detail, backend
-        if not z3.is_true(goal_s) and not (structural and z3.is_false(goal_s)):
+        if not z3.is_true(goal_s) and not z3.is_false(goal_s):
             self.assume(goal)
         return self.obligs[key]
 
@@ -532,7 +532,9 @@ class Seq:
 
         def at(j):
             return z3.If(j < zint(la), a.at(j), b.at(j - zint(la)))
-        return Seq(add(a.len, b.len), at, a.sort)
+        r = Seq(add(a.len, b.len), at, a.sort)
+        r.parts = (a, b)
+        return r
 
     def map(self, f, sort=None):
         return Seq(self.len, lambda j: f(self.at(j)), sort or self.sort)
@@ -618,7 +620,9 @@ class Enum:
             z3.ForAll([i, j], z3.Implies(z3.And(0 <= i, i < j, j < nn, zbool(g(i)), zbool(g(j))),
                                          e.rk(i) < e.rk(j)),
                       patterns=[z3.MultiPattern(e.rk(i), e.rk(j))]),
-            z3.Implies(z3.ForAll([i], z3.Implies(z3.And(0 <= i, i < nn), gi)), e.cnt == z3.If(nn >= 0, nn, 0)),
+            z3.Implies(z3.ForAll([i], z3.Implies(z3.And(0 <= i, i < nn), gi)),
+                       z3.And(e.cnt == z3.If(nn >= 0, nn, 0),
+                              z3.ForAll([j], z3.Implies(z3.And(0 <= j, j < nn), e.idx(j) == j), patterns=[e.idx(j)]))),
         ]
         ax += [e.cb(0) == 0, z3.Implies(nn >= 0, e.cb(nn) == e.cnt),
                z3.ForAll([i], z3.Implies(z3.And(0 <= i, i < nn, gi), e.rk(i) == e.cb(i)), patterns=[e.rk(i)])]
@@ -631,6 +635,32 @@ class Enum:
             cache[key] = (e, pos, ax[0])
         Enum.link_equivalent(ctx, e, cache)
         return e
+
+    @staticmethod
+    def link_split(ctx, total, A, B, g_left, g_right):
+        """Enumeration of a concatenated range (meta-lemma, by uniqueness of increasing enumerations):
+        if total enumerates {k < A+B | g(k)}, g agrees with g_left on [0,A) and with g_right(.-A) on
+        [A, A+B), then total = enumeration(A, g_left) followed by A + enumeration(B, g_right).
+        Applied only when both agreements are proved under the current assumptions."""
+        kf = z3.Int(ctx.fresh_name("k!spl"))
+        ok1 = ctx.valid(z3.Implies(in_range(kf, A), zbool(total.g(kf)) == zbool(g_left(kf))), 1500)
+        ok2 = ctx.valid(z3.Implies(in_range(kf, B), zbool(total.g(zint(A) + kf)) == zbool(g_right(kf))), 1500)
+        if not (ok1 and ok2):
+            return None
+        left = Enum.of(ctx, A, g_left)
+        right = Enum.of(ctx, B, g_right)
+        j = z3.Int("j!ax")
+        ctx.assumptions.append(total.cnt == left.cnt + right.cnt)
+        ctx.assumptions.append(z3.ForAll([j], z3.Implies(z3.And(0 <= j, j < left.cnt), total.idx(j) == left.idx(j)),
+                                         patterns=[total.idx(j)]))
+        ctx.assumptions.append(z3.ForAll([j], z3.Implies(z3.And(0 <= j, j < right.cnt),
+                                                         total.idx(left.cnt + j) == zint(A) + right.idx(j)),
+                                         patterns=[right.idx(j)]))
+        ctx.assumptions.append(z3.ForAll([j], z3.Implies(z3.And(left.cnt <= j, j < total.cnt),
+                                                         total.idx(j) == zint(A) + right.idx(j - left.cnt)),
+                                         patterns=[total.idx(j)]))
+        ctx.used_models.add("meta-lemma: the increasing enumeration over a concatenated range is the concatenation of the two enumerations")
+        return left, right
 
     def unfold(self, i):
         """Instance of the recursive definition of cntbelow at position i (definitional axiom)."""
@@ -659,6 +689,23 @@ class Enum:
                 ctx.assumptions.append(z3.ForAll([i], e1.rk(i) == e.rk(i), patterns=[e1.rk(i)]))
                 ctx.assumptions.append(z3.ForAll([i], e1.rk(i) == e.rk(i), patterns=[e.rk(i)]))
                 ctx.used_models.add("meta-lemma: increasing enumerations of equivalent predicates over one range coincide")
+
+
+def forall(vars_, body, patterns=None):
+    """z3.ForAll with patterns filtered to valid triggers (uninterpreted applications that mention every
+    bound variable); falls back to z3's own pattern inference."""
+    pats = []
+    for p in patterns or []:
+        if z3.is_app(p) and p.decl().kind() == z3.Z3_OP_UNINTERPRETED and all(occurs(v, p) for v in vars_):
+            pats.append(p)
+        elif len(vars_) == 1:
+            pats.extend(t for t in pattern_terms(p, vars_[0]))
+    try:
+        if pats:
+            return z3.ForAll(vars_, body, patterns=pats)
+    except z3.Z3Exception:
+        pass
+    return z3.ForAll(vars_, body)
 
 
 def occurs(const, term):
